@@ -24,7 +24,7 @@ def dispatch (line : String) : String :=
     else if t == "verify" then verifyLine toks
     else if t == "refeval" then refLine toks
     else if t == "fragc" then fragcLine toks
-    else if t == "pegtrace" || t == "pegleaks" || t == "pegtracec" then pegLine toks
+    else if t == "pegtrace" || t == "pegleaks" || t == "pegtracec" || t == "pegacts" then pegLine toks
     else if t == "matchrest" then matchRestLine toks
     else if t == "stlist" then stListLine toks
     else "bad-op"
